@@ -42,7 +42,18 @@ def random_mutation(rng, world, cfg, weights=None, counter=None):
     elif k == 'touch':
         fs = existing(world, 'f')
         if fs:
-            ok = world.ext_touch(rng.choice(fs))
+            r = rng.choice(fs)
+            if rng.random() < 0.3:
+                # unusual times: the epoch, before the epoch, far in the future, back in time, +-1 ns
+                import os as _os
+                try:
+                    cur = _os.stat(world.ap(r)).st_mtime_ns
+                    tgt = rng.choice([0, 1, -10 ** 9, 4102444800 * 10 ** 9, cur - 10 ** 12, cur + 1, cur - 1])
+                    ok = world.ext_touch(r, tgt - cur) if tgt != cur else False
+                except OSError:
+                    ok = False
+            else:
+                ok = world.ext_touch(r)
     elif k == 'recreate':
         fs = existing(world, 'f')
         if fs:
